@@ -151,7 +151,9 @@ class Gen:
                     raise GenError(f"literal of {t} sets unknown field {g}")
             parts = []
             for fl in self.fields(t):
-                if fl["name"] in given:
+                if fl["name"] in given and given[fl["name"]].get("k") == "nil":
+                    parts.append(f"{fl['name']} := {self.default(self.lt(fl['type'], t.startswith('controlpb.')))}")
+                elif fl["name"] in given:
                     tx, _ = self.render(given[fl["name"]], env, binds)
                     parts.append(f"{fl['name']} := {tx}")
             txt = "({ " + ", ".join(parts) + " } : " + self.lean_struct_name(t) + ")"
@@ -191,6 +193,10 @@ class Gen:
             a, _ = self.render(e["x"], env, binds)
             b, _ = self.render(e["y"], env, binds)
             return f"({a} == {b})", "bool"
+        if k == "neq":
+            a, _ = self.render(e["x"], env, binds)
+            b, _ = self.render(e["y"], env, binds)
+            return f"({a} != {b})", "bool"
         if k == "rawopts":
             return env["o"]
         if k == "optlist":
@@ -405,7 +411,10 @@ class Gen:
             prms = self.f["hub"][hc["method"]]
             parts = [f'method := "{hc["method"]}"']
             for prm, a in zip(prms, hc["args"]):
-                parts.append(f"{prm['name']} := {self.render(a, env)[0]}")
+                if a.get("k") == "nil":     # Go nil for a slice / pointer parameter
+                    parts.append(f"{prm['name']} := {self.default(self.lt(prm['type']))}")
+                else:
+                    parts.append(f"{prm['name']} := {self.render(a, env)[0]}")
             return "{ " + ", ".join(parts) + " }"
 
         def dispatch_txt(d, env):
@@ -559,7 +568,18 @@ NAMED_FILTERS = {
 
 
 def render(facts):
-    return Gen(facts).generate(NAMED_FILTERS)
+    """-> Lean text; contains `genStamp`, a hash of the rest of the text, echoed by the drivers so that a check can
+    tell that the driver binary it runs was built from this very file."""
+    import hashlib
+    txt = Gen(facts).generate(NAMED_FILTERS)
+    st = hashlib.sha1(txt.encode()).hexdigest()[:12]
+    return txt.replace("end CentrifugeVerif.Gen.ControlCodec\n", f'def genStamp : String := "{st}"\n\nend CentrifugeVerif.Gen.ControlCodec\n')
+
+
+def stamp_of(text):
+    import re
+    m = re.search(r'def genStamp : String := "([0-9a-f]+)"', text)
+    return m.group(1) if m else None
 
 
 if __name__ == "__main__":
